@@ -270,3 +270,35 @@ Example C11_chunk_loop_example :
   let c' := solo tr_cf 0 2 (binit_shared tr_cf, BRun 0 0 0 3) in
   map fst (calls (fst c')) = [0] /\ snd c' = BExch 0 /\ 0 + N.of_nat 3 < 2 ^ cbits tr_cf.
 Proof. vm_compute. repeat split; reflexivity. Qed.
+
+(* ================================================================== the fuel of the trace acceptor suffices
+   [lock_step] lets the scheduled thread continue through program points without a park point (site 0:
+   no atomic of the real code is touched there) for at most 8 steps.  [zero] = "site 0 and not finished". *)
+From Pika Require Import Proofs.BulkSettleProofs.
+
+(* a site-0 step touches none of the real atomics and makes no call *)
+Theorem C11_site0_step_touches_no_atomic : forall cf t g l, zero cf g t l = true ->
+  let g' := fst (bstep cf false t g l) in
+  queues g' = queues g /\ remaining g' = remaining g /\ exc_flag g' = exc_flag g /\ exc g' = exc g /\
+  spawned g' = spawned g /\ ts g' = ts g /\ calls g' = calls g /\ exits g' = exits g /\ fin g' = fin g.
+Proof. exact zero_step_frame. Qed.
+Print Assumptions C11_site0_step_touches_no_atomic.
+
+(* after every acceptor step the scheduled thread stands at a real site or has finished: 8 is enough
+   (at most 3 site-0 steps follow one another), for every configuration and state *)
+Theorem C11_trace_acceptor_fuel_suffices : forall cf c t,
+  zero cf (fst (lock_step cf c t)) t (snd (lock_step cf c t) t) = false.
+Proof. exact lock_step_parks. Qed.
+Print Assumptions C11_trace_acceptor_fuel_suffices.
+
+(* and in every state the acceptor reaches from the initial state EVERY thread does *)
+Theorem C11_trace_acceptor_all_parked : forall cf sched t,
+  let c := snd (lock_trace cf sched (binit cf) []) in
+  zero cf (fst c) t (snd c t) = false.
+Proof. exact trace_all_parked. Qed.
+Print Assumptions C11_trace_acceptor_all_parked.
+
+Example C11_site0_example :
+  zero tr_cf (binit_shared tr_cf) 0 (BSig KEnd) = true /\ zero tr_cf (binit_shared tr_cf) 0 (BRun 0 0 3 3) = true /\
+  zero tr_cf (binit_shared tr_cf) 0 (BSpawn 0) = true /\ zero tr_cf (binit_shared tr_cf) 0 (BSpawn 1) = false.
+Proof. vm_compute. repeat split; reflexivity. Qed.
